@@ -203,7 +203,7 @@ theorem reset_inv (cfg : Cfg) (c : Circuit) (now : Nat) (h : CInv cfg c) : CInv 
 inductive Eff (now : Nat) (c c' : Circuit) (evs : List CEv) : Prop
   | stay (h1 : evs = []) (h2 : c'.st = c.st) (h3 : c'.episode = c.episode)
       (h4 : c'.lastChange = c.lastChange) (h5 : c'.released = c.released) : Eff now c c' evs
-  | moved (s' : St) (h0 : c.st ≠ s') (h1 : evs = [.transition c.st s']) (h2 : c'.st = s')
+  | moved (s' : St) (h0 : c.st ≠ s') (h1 : evs = [.transition c.st s' c.mirror]) (h2 : c'.st = s')
       (h3 : c'.hoAdmitted = 0) (h4 : c'.hoSuccesses = 0) (h5 : c'.released = 0) (h6 : c'.ownSucc = 0)
       (h7 : c'.episode = c.episode + 1) (h8 : c'.lastChange = now) : Eff now c c' evs
 
@@ -257,7 +257,7 @@ theorem evaluate_eff (cfg : Cfg) (c : Circuit) (now : Nat) :
     cases this.1 with
     | stay h1 h2 h3 h4 h5 => exact .stay h1 (by rw [h2, f1]) (by rw [h3, f6]) (by rw [h4, f3]) (by rw [h5, f7])
     | moved s' h0 h1 h2 h3 h4 h5 h6 h7 h8 =>
-      exact .moved s' (by rw [← f1]; exact h0) (by rw [h1, f1]) h2 h3 h4 h5 h6 (by rw [h7, f6]) h8
+      exact .moved s' (by rw [← f1]; exact h0) (by rw [h1, f1, f2]) h2 h3 h4 h5 h6 (by rw [h7, f6]) h8
 
 theorem evalOn_st (cfg : Cfg) (c : Circuit) (now : Nat) (h : (evalOn cfg c now).2 ≠ []) :
     (evalOn cfg c now).1.st = .opened := by
@@ -294,7 +294,7 @@ theorem record_eff (cfg : Cfg) (c : Circuit) (fail : Bool) (dur now : Nat) (own 
       cases this with
       | stay h1 h2 => rw [transitionTo_st] at h2; rw [hst] at h2; cases h2
       | moved s' h0 h1 h2 h3 h4 h5 h6 h7 h8 =>
-        refine ⟨.moved s' (by rw [← f1]; exact h0) (by rw [h1, f1]) h2 h3 h4 h5 h6 (by rw [h7, f6]) h8, fun he => ?_, fun _ => ?_⟩
+        refine ⟨.moved s' (by rw [← f1]; exact h0) (by rw [h1, f1, f2]) h2 h3 h4 h5 h6 (by rw [h7, f6]) h8, fun he => ?_, fun _ => ?_⟩
         · rw [h1] at he; cases he
         · rw [transitionTo_st]; simp
     · rename_i hfail
@@ -304,11 +304,12 @@ theorem record_eff (cfg : Cfg) (c : Circuit) (fail : Bool) (dur now : Nat) (own 
             hoSuccesses := _, ownSucc := _ } : Circuit) = c2
         have hc2st : c2.st = .halfOpen := by rw [← hc2]; exact hst
         have hc2ep : c2.episode = c.episode := by rw [← hc2]; exact f6
+        have hc2mi : c2.mirror = c.mirror := by rw [← hc2]; exact f2
         have := (transitionTo_eff c2 .closed now).1
         cases this with
         | stay h1 h2 => rw [transitionTo_st] at h2; rw [hc2st] at h2; cases h2
         | moved s' h0 h1 h2 h3 h4 h5 h6 h7 h8 =>
-          refine ⟨.moved s' (by rw [hst', ← hc2st]; exact h0) (by rw [h1, hc2st, hst']) h2 h3 h4 h5 h6 (by rw [h7, hc2ep]) h8, fun he => ?_, fun _ => ?_⟩
+          refine ⟨.moved s' (by rw [hst', ← hc2st]; exact h0) (by rw [h1, hc2st, hst', hc2mi]) h2 h3 h4 h5 h6 (by rw [h7, hc2ep]) h8, fun he => ?_, fun _ => ?_⟩
           · rw [h1] at he; cases he
           · rw [transitionTo_st]; simp
       · refine ⟨.stay rfl f1 f6 f3 f7, fun _ => ⟨f4, ?_, fun _ => hfail'⟩, fun hne => absurd rfl hne⟩
@@ -323,7 +324,7 @@ theorem record_eff (cfg : Cfg) (c : Circuit) (fail : Bool) (dur now : Nat) (own 
     · cases this.1 with
       | stay h1 h2 h3 h4 h5 => exact .stay h1 (by rw [h2, f1]) (by rw [h3, f6]) (by rw [h4, f3]) (by rw [h5, f7])
       | moved s' h0 h1 h2 h3 h4 h5 h6 h7 h8 =>
-        exact .moved s' (by rw [← f1]; exact h0) (by rw [h1, f1]) h2 h3 h4 h5 h6 (by rw [h7, f6]) h8
+        exact .moved s' (by rw [← f1]; exact h0) (by rw [h1, f1, f2]) h2 h3 h4 h5 h6 (by rw [h7, f6]) h8
     · have := this.2 he
       refine ⟨by rw [this.1, f4], ?_, fun h => absurd h hne⟩
       rw [this.2.1, f8]; simp [hne]
@@ -333,7 +334,7 @@ theorem record_eff (cfg : Cfg) (c : Circuit) (fail : Bool) (dur now : Nat) (own 
 inductive Acq (cfg : Cfg) (now : Nat) (c c' : Circuit) (ok : Bool) (evs : List CEv) : Prop
   | closed (h : c.st = .closed) (hc : c' = c) (hok : ok = true) (he : evs = [])
   | toHalf (h : c.st = .opened) (hw : now - c.lastChange ≥ cfg.waitMs) (hok : ok = true)
-      (he : evs = [.transition .opened .halfOpen]) (h2 : c'.st = .halfOpen) (h3 : c'.hoAdmitted = 1)
+      (he : evs = [.transition .opened .halfOpen c.mirror]) (h2 : c'.st = .halfOpen) (h3 : c'.hoAdmitted = 1)
       (h4 : c'.hoSuccesses = 0) (h5 : c'.released = 0) (h6 : c'.ownSucc = 0)
       (h7 : c'.episode = c.episode + 1) (h8 : c'.lastChange = now)
   | rejectOpen (h : c.st = .opened) (hw : now - c.lastChange < cfg.waitMs) (hc : c' = c) (hok : ok = false) (he : evs = [])
